@@ -913,6 +913,11 @@ def _crop(ctx, prog):
         ctx.ob("C11.3", red[0], True, "time crop goes through "
                "reduce_to_ids", key="C11.3:via-reduce", nontrivial=False)
         return
+    if ids is not None and is_call_to(ids, "numpy.flatnonzero") and \
+            len(ids.args[1]) == 1:
+        # np.flatnonzero(m) is np.where(m)[0]
+        ids = tm.sub(tm.call(tm.glob("numpy.where"), (ids.args[1][0],), ()),
+                     const(0))
     if ids is not None and ids.op == "sub" and tm.is_const(ids.args[1], 0) \
             and is_call_to(ids.args[0], "numpy.where", "numpy.nonzero") and \
             len(ids.args[0].args[1]) == 1:
